@@ -46,7 +46,7 @@ PROPS["C04"] = coop("TestProp", "two parts. (a) queues: rapid-generated enqueue/
                     extra_parts=[seq("TestC04Queues", quick=(4, 2500), thorough=(16, 20000), fuzz={"targets": ["FuzzC04Queues"], "time": "60s", "timeout": 400})])
 PROPS["C04"]["assumptions"] = PROPS["C04"]["assumptions"] + ["queue part: reference models (slice, stable sort by (priority, arrival)) are correct"]
 # the FIFO/priority queue types' Len() is what every pending count is made of: the differential queue test (length compared with the model after every step, incl. exactly full and drained segments) is also a part of C17
-PROPS["C17"]["extra_parts"] = [seq("TestC04Queues", quick=(4, 1500), thorough=(16, 8000))]
+PROPS["C17"]["extra_parts"] = [seq("TestC04Queues", quick=(4, 3000), thorough=(16, 10000))]
 PROPS["C17"]["assumptions"] = PROPS["C17"]["assumptions"] + ["queue part: reference models (slice, stable sort by (priority, arrival)) are correct"]
 
 PROPS["C19"] = {"engine": "race", "pkg": "vrace", "test": "TestC19", "replay_test": "TestReplay",
